@@ -408,6 +408,7 @@ func runMod1(c Mod1Case, rec *h.Rec) error {
 		sq := mp.Sqrt2Pi * sc
 		for i := 0; i < c.DoubleAngle; i++ {
 			sq *= sq
+			track(2 * yf * yf) // the product before the subtraction (at scale^2, same relative headroom)
 			yf = 2*yf*yf - sq
 			track(yf)
 		}
@@ -507,9 +508,10 @@ func runMod1(c Mod1Case, rec *h.Rec) error {
 		for i := range got {
 			pipeline(u[i], scaling)
 		}
-		if !(maxInter <= 4) {
+		if !(maxInter <= math.Min(4, math.Exp2(float64(60-c.Params.LogScale-2)))) {
 			// The interpolant is not a bounded approximation on these inputs (CosDiscrete close to its minimum degree):
-			// the plaintext overflows the modulus and every slot is garbage. Outside what the circuit can represent: unjudged.
+			// some slot exceeds a quarter of the headroom q0/scale = 2^(60-LogScale) of the last levels, the plaintext wraps
+			// around the modulus and every slot is garbage. Outside what the circuit can represent: unjudged.
 			rec.Class("mod1:reference-model-unbounded(unjudged)")
 			return nil
 		}
